@@ -558,7 +558,9 @@ func c17AcsMaps(run *PropRun) {
 		want := map[int64]string{}
 		for i := 0; i+1 < len(acsc); i += 2 {
 			if r, ok := names[acsc[i]]; ok {
-				want[r] = enter + string(acsc[i+1]) + exit
+				// the entry is later written verbatim (writeString): it must be the form the terminal understands, i.e.
+				// smacs / rmacs with any terminfo padding specification removed
+				want[r] = stripPadding(enter) + string(acsc[i+1]) + stripPadding(exit)
 			}
 		}
 		bad := ""
@@ -580,7 +582,13 @@ func c17AcsMaps(run *PropRun) {
 				last = fmt.Sprintf(`if got, ok := s.acs[rune(%d)]; !ok || got != %q { fail("%s: the last acsc pair (rune U+%04X) is missing from the ACS map: have %%q want %%q", got, %q); return }`, r, want[r], te.Name, r, want[r])
 			}
 		}
-		g.ReplayGo = replayKeyTable(te.Name, "s.buildAcsMap()\n\t"+last)
+		g.ReplayGo = replayKeyTable(te.Name, "s.buildAcsMap()\n\t"+last+`
+	for r, v := range s.acs {
+		if strings.Contains(v, "$<") {
+			fail("the ACS string for U+%04X is %q: it is written verbatim, so the padding specification reaches the terminal as text", r, v)
+			return
+		}
+	}`)
 		n++
 	}
 	run.Extra["acs_maps_evaluated"] = n
